@@ -42,6 +42,9 @@ pub enum Event {
     /// The operand a JUMP / JUMPI at `ip` found for its target: the big-endian
     /// bytes of the constant it folded to, or `None` if it is not a constant.
     JumpOperand { ip: u32, word: Option<[u8; 32]> },
+    /// An SLOAD (`write == false`) or SSTORE at `ip` used `key`: the big-endian bytes of
+    /// the key if it is a literal constant, `None` otherwise.
+    StorageAccess { ip: u32, write: bool, key: Option<[u8; 32]> },
     /// An opcode asked for an error to be stored without failing itself.
     StoreErr { kind: String, loc: u32 },
     /// The outcome of `advance` for thread `tid`, whose instruction pointer was
